@@ -181,6 +181,46 @@ _add(mk_frame_sided(3, 2, ((2, 2),), 0))
 _add(mk_frame_sided(3, 2, ((1, 1), (1, 1)), 0))
 
 
+def mk_frame_all_layouts(nrows, ncols, axis, what, tier='quick'):
+    """One solver Boolean per cell as above; every path then runs the fill over EVERY block layout of the columns (cells
+    are concrete, so each path is a handful of concrete library calls): block boundaries in every position, 1-D and 2-D
+    blocks first, interior and last."""
+    lays = layouts.compositions(ncols)
+
+    def body(env, **kw):
+        from vf import rt
+        flags = [[bool(kw[f'm{r}{c}']) for c in range(ncols)] for r in range(nrows)]
+
+        def run():
+            got, exp = [], []
+            for lay in lays:
+                f, ref = mk_frame(env, flags, lay)
+                if what == 'sided':
+                    got.append([env.obs(f.fillna_leading(-7, axis=axis).values.tolist()), env.obs(f.fillna_trailing(-7, axis=axis).values.tolist())])
+                    exp.append([by_axis(ref, axis, lambda l: ref_sided(l, True, -7)), by_axis(ref, axis, lambda l: ref_sided(l, False, -7))])
+                else:
+                    got.append([env.obs(f.fillna_forward(axis=axis).values.tolist()), env.obs(f.fillna_backward(axis=axis).values.tolist())])
+                    exp.append([by_axis(ref, axis, lambda l: ref_directional(l, True, 0)), by_axis(ref, axis, lambda l: ref_directional(l, False, 0))])
+            return got, exp
+        return rt.untraced(run)
+    fn = {('sided', 1): 'TypeBlocks._fillna_sided_axis_1', ('sided', 0): 'TypeBlocks._fillna_sided_axis_0',
+          ('directional', 1): 'TypeBlocks._fillna_directional_axis_1', ('directional', 0): 'TypeBlocks._fillna_directional_axis_0'}[(what, axis)]
+    return Cond(f'frame_{what}_{nrows}x{ncols}_all_layouts_axis{axis}', [(f'm{r}{c}', 'bool') for r in range(nrows) for c in range(ncols)], body,
+            functions=[fn],
+            bounds=f'{nrows}x{ncols} float64 frame in EVERY one of the {len(lays)} block layouts of {ncols} columns; every missing pattern; axis {axis}; ' + ('fill value -7' if what == 'sided' else 'no limit'),
+            route=('Frame.fillna_leading/trailing' if what == 'sided' else 'Frame.fillna_forward/backward') + f'(axis={axis}) over every block layout', tier=tier, timeout=300)
+
+
+_add(mk_frame_all_layouts(1, 4, 1, 'sided'))
+_add(mk_frame_all_layouts(2, 3, 1, 'sided'))
+_add(mk_frame_all_layouts(1, 4, 1, 'directional'))
+_add(mk_frame_all_layouts(2, 3, 0, 'sided'))
+_add(mk_frame_all_layouts(2, 3, 0, 'directional'))
+_add(mk_frame_all_layouts(1, 5, 1, 'sided', tier='thorough'))
+_add(mk_frame_all_layouts(1, 5, 1, 'directional', tier='thorough'))
+_add(mk_frame_all_layouts(3, 3, 1, 'sided', tier='thorough'))
+
+
 def mk_frame_misc(layout, part, tier='quick'):
     def body(env, fill=0, **kw):
         import numpy  # noqa: F401
